@@ -8,7 +8,8 @@ EXPLANATION = ("C12: (R1) both decode paths and both detection paths converge on
                "the streaming and the slice header stripper are extracted from the MIR (unique path per state x byte class) "
                "and compared for bisimilarity; (R4) chunk-boundary independence: the only state carried across bytes and reads "
                "is self.header_state, end of input and header-consumed chunks are handled, emitted ranges start at the current "
-               "byte; (R5) the data-URL path ends in decode_slice; (R6) panic-freedom of the strippers.")
+               "byte; (R5) the data-URL path ends in decode_slice; (R6) panic-freedom of the strippers."
+               " (RW) the wire structs RawSourceMap/RawSection carry derived serde impls only, so key names and optionality are exactly what the attributes say.")
 NOT_DECIDED = "equality of serde_json's two front ends on all byte strings (dependency, trusted)."
 TECHNIQUE = "static analysis: automaton extraction by path-determinate abstract interpretation of MIR + bisimulation check; value-set analysis of byte classifiers"
 
